@@ -775,12 +775,47 @@ func headerFor(o genOpts, r *RNG) []string {
 	return h
 }
 
+// genJumpStress: labels whose distances cluster around the rel8 limit (126..130 bytes) with
+// interlocked forward and backward jumps across them - branch relaxation territory: whether a
+// jump is short or near depends on the sizes of the jumps it spans.
+func genJumpStress(r *RNG) []string {
+	n := r.Range(3, 7)
+	var body []string
+	lbl := func(i int) string { return fmt.Sprintf("jl%d", i) }
+	for i := 0; i < n; i++ {
+		body = append(body, lbl(i)+":")
+		// one or two jumps to neighbours, some spanning the next block(s)
+		for k, m := 0, r.Range(1, 2); k < m; k++ {
+			t := i + r.Range(-2, 3)
+			if t < 0 {
+				t = 0
+			}
+			if t > n {
+				t = n
+			}
+			body = append(body, "\t"+pick(r, []string{"JMP", "JE", "JNZ", "JC", "JAE"})+"\t"+lbl(t))
+		}
+		// filler that puts the next label close to the short-jump limit
+		fill := pick(r, []int{118, 120, 121, 122, 123, 124, 125, 126, 127, 128, 60, 30, 250})
+		if r.Chance(1, 2) {
+			body = append(body, fmt.Sprintf("\tRESB\t%d", fill))
+		} else {
+			body = append(body, fmt.Sprintf("\tRESB\t%d", fill-3), "\tMOV\tAX,0")
+		}
+	}
+	body = append(body, lbl(n)+":", "\tHLT")
+	return body
+}
+
 // genProgram draws one generated program; with twin=true it also returns its twin: the
 // same statement lines under a different mode/format/origin header.
 func genProgram(r *RNG, name string, twin bool, nonASCII bool) []*Program {
 	o := drawGenOpts(r)
 	o.NonASCII = nonASCII && r.Chance(1, 3)
 	body, hasEqu, hasGlobal := genBody(r, o)
+	if r.Chance(1, 6) {
+		body = append(body, genJumpStress(r)...)
+	}
 	p := &Program{Name: name, Header: headerFor(o, r), Body: body, Origin: "gen"}
 	classify(p)
 	p.HasEQU, p.HasGlobal = hasEqu, hasGlobal
